@@ -11,7 +11,8 @@ Not decided: the cardinality arithmetic itself; FastHashRing index arithmetic.
 import ast
 
 from ..model import dotted, unparse, norm, walk_no_nested
-from ..rulelib import Ctx, nodes_calling, reaching_defs, value_assigned, short
+from ..symeval import show
+from ..rulelib import Ctx, nodes_calling, reaching_defs, value_assigned, short, ValueNumbers
 from .c06 import rule_local_mutation
 
 IMPURE = ('random', 'choice', 'shuffle', 'time', 'randint', 'uuid4', 'urandom', 'sample')
@@ -157,23 +158,18 @@ def run(check):
     check.analysed(gd)
     g = cx.cfg(gd)
     ys = _yields(g)
+    vn = ValueNumbers(cx, gd)
+    PORTS = ('attr', ('param', gd.params[0]), 'instance_ports')
     for n, y in ys:
       v = y.value
       okc = False
-      if isinstance(v, ast.Tuple) and len(v.elts) == 3:
-        s_, p_, i_ = v.elts
-        ptxt = None
-        if isinstance(p_, ast.Name):
-          rds = reaching_defs(g, p_.id, n)
-          vals = [value_assigned(d, p_.id) for d in rds if d is not g.entry]
-          if vals and len(vals) == len(rds) and all(isinstance(x, ast.AST) for x in vals):
-            ptxts = {unparse(x).replace(' ', '') for x in vals}
-            ptxt = ptxts.pop() if len(ptxts) == 1 else None
-        else:
-          ptxt = unparse(p_).replace(' ', '')
-        if ptxt == 'self.instance_ports[%s,%s]' % (unparse(s_), unparse(i_)) or \
-           ptxt == 'self.instance_ports[(%s,%s)]' % (unparse(s_), unparse(i_)):
-          okc = True
+      tv = vn.term(v, n) if v is not None else None
+      if isinstance(tv, tuple) and tv[0] == 'tuple' and len(tv) == 4:
+        s_t, p_t, i_t = tv[1:]
+        if isinstance(p_t, tuple) and p_t[0] == 'sub' and p_t[1] == PORTS:
+          k_t = p_t[2]
+          # looked up under (server, instance): spelled out, or as the ring node the two were unpacked from
+          okc = k_t == ('tuple', s_t, i_t) or (s_t == ('field', k_t, 0) and i_t == ('field', k_t, 1))
       if okc:
         r_cf.ok('destination = (server, instance_ports[(server, instance)], instance)', gd.loc(y))
       else:
@@ -264,13 +260,14 @@ def run(check):
     if not dys:
       r_dv.violate('no diverse branch', gd, None, 'getDestinations has no branch for DIVERSE_REPLICAS', construct='diverse_replicas')
     for n, y in dys:
-      srv = y.value.elts[0] if isinstance(y.value, ast.Tuple) and y.value.elts else None
-      stxt = unparse(srv) if srv is not None else '?'
+      tv = vn.term(y.value, n) if y.value is not None else None
+      srv_t = tv[1] if isinstance(tv, tuple) and tv[0] == 'tuple' and len(tv) > 1 else None
+      stxt = show(srv_t) if srv_t is not None else '?'
       def srv_notin(a, lab, b):
         if not (isinstance(lab, tuple) and isinstance(lab[1], ast.Compare) and len(lab[1].ops) == 1):
           return False
         t = lab[1]
-        if unparse(t.left) != stxt:
+        if srv_t is None or vn.term(t.left, a) != srv_t:
           return False
         return (isinstance(t.ops[0], ast.NotIn) and lab[0] == 'T') or (isinstance(t.ops[0], ast.In) and lab[0] == 'F')
       # under diverse_replicas: remove the non-diverse edges first
